@@ -70,8 +70,13 @@ def walk (k : Kind) (j : J) : List String → Option (J × Kind)
     | some c => walk (childKind k j t) c ts
     | none => none
 
-/-- tokens of an analyzer key "#/a/b~1c" -/
-def keyTokens (key : String) : List String := Spec.Pointer.parse (String.ofList (key.toList.drop 1))
+/-- tokens of a key "#/a/b~1c": `pth, _ := url.PathUnescape(key[1:])` then `jsonpointer.New(pth)`.
+    Analyzer keys carry no '%' and pass unchanged; keys taken from `$ref` strings (namePointers) are
+    URL-escaped and are decoded here.  A malformed escape leaves `pth` empty: the empty pointer. -/
+def keyTokens (key : String) : List String :=
+  match Str.pathUnescape (String.ofList (key.toList.drop 1)) with
+  | some pth => Spec.Pointer.parse pth
+  | none => []
 
 /-- replace the node at a token path (objects by key, arrays by index); `none` when the path does not exist -/
 def setAt (j : J) : List String → J → Option J
